@@ -38,6 +38,7 @@ pub fn small_spec(run_seed: u64) -> PipeSpec {
         faults: Default::default(),
         presentations,
         sched: SchedSpec { policy: Policy::Sticky { p: 950 }, seed: s.schedule.next() },
+        hard: None,
     }
 }
 
